@@ -207,6 +207,22 @@ func (c *Cluster) genStep(g *genState) *Step {
 			alive = append(alive, n)
 		}
 	}
+	if cfg.ChattyPair && len(alive) >= 3 && g.burstLeft == 0 && r.Bool(0.04) {
+		// directed: pile + a persistent victim that re-fast-forwards (see opPileReFF)
+		vict := []*SimNode{}
+		for _, n := range alive {
+			if n.storeKind == "badger" && n.state() == _state.Babbling {
+				vict = append(vict, n)
+			}
+		}
+		if len(vict) > 0 {
+			v := vict[r.Intn(len(vict))]
+			a, b := alive[r.Intn(len(alive))], alive[r.Intn(len(alive))]
+			if a != v && b != v && a != b {
+				return &Step{Op: "pilereff", A: v.idx, B: a.idx, N: b.idx, D: int64(r.Range(2, 12) + 100*r.Range(2, 14) + 10000*r.Range(8, 40))}
+			}
+		}
+	}
 	if cfg.ChattyPair && len(alive) >= 2 {
 		// two validators exchange syncs for a while and nobody else takes part:
 		// without a quorum the round does not advance, each of them piles up a
